@@ -445,7 +445,11 @@ def verdict_alone(desc):
         raise Discard("element within 5 deg of the x axis")
     E, G = surf["E"], surf["G"]
     out.true("alone/nonnegative", bool(np.all(vm >= 0)))
-    sc = float(np.max(vm)) or 1.0
+    # (a load that produces no stress - e.g. all of it on the clamped node - leaves round-off of 1e-15 Pa: stresses are never
+    # judged finer than 1e-6 of the nominal stress largest load / smallest section area)
+    chord_ = float(np.max(np.linalg.norm(mesh[-1] - mesh[0], axis=1)))
+    f_nom = float(np.max(np.abs(f[:, :3]))) + float(np.max(np.abs(f[:, 3:]))) / chord_
+    sc = max(float(np.max(vm)), 1e-6 * f_nom / float(np.min(prob.get_val("A"))))
     if desc["model"] == "tube":
         ref = RS.tube_vonmises(nodes, np.ravel(prob.get_val("radius")), disp, E, G)
         out.close("alone/tube/closed_form", vm, ref, rtol=1e-9, scale=sc)
